@@ -30,8 +30,15 @@ func (r *Runner) bashTest(ctx context.Context, expr syntax.TestExpr, classic boo
 	case *syntax.BinaryTest:
 		switch x.Op {
 		case syntax.TsMatchShort, syntax.TsMatch, syntax.TsNoMatch:
-			str := r.literal(x.X.(*syntax.Word))
-			yw := x.Y.(*syntax.Word)
+			xw, ok1 := x.X.(*syntax.Word)
+			yw, ok2 := x.Y.(*syntax.Word)
+			if !ok1 || !ok2 {
+				// e.g. "test -v a == b", where an operand is an expression.
+				r.errf("test: %s needs words as operands\n", x.Op)
+				r.exit.code = 2
+				return ""
+			}
+			str := r.literal(xw)
 			if classic { // test, [
 				lit := r.literal(yw)
 				if (str == lit) == (x.Op != syntax.TsNoMatch) {
